@@ -238,7 +238,11 @@ public:
     }
     if (auto *E = dyn_cast<Expr>(S)) {
       J.attribute("t", typeId(E->getType()));
-      if (!E->isValueDependent() && !E->isTypeDependent() && E->isPRValue() &&
+      bool ConstRef = false;
+      if (auto *DRE = dyn_cast<DeclRefExpr>(E))
+        if (auto *VD = dyn_cast<VarDecl>(DRE->getDecl()))
+          ConstRef = VD->getType().isConstQualified() && VD->hasInit() && !isa<ParmVarDecl>(VD);
+      if (!E->isValueDependent() && !E->isTypeDependent() && (E->isPRValue() || ConstRef) &&
           (E->getType()->isIntegralOrEnumerationType()) && !isa<IntegerLiteral>(E) &&
           !isa<CharacterLiteral>(E) && !isa<CXXBoolLiteralExpr>(E)) {
         Expr::EvalResult R;
